@@ -38,7 +38,8 @@ Shows(e, r, v) ==
             /\ val' = v /\ e.out = Out(Cfg(tid), r.st, v)
 
 InitLine(e) == /\ e.ev = "init" /\ phase = "new" /\ e.t = 0
-               /\ Shows(e, F!Enter(Cfg(tid), Cfg(tid).init, F!ABSENTV, 0, FALSE, 0, FALSE), Cfg(tid).initv)
+               /\ Shows(e, IF Cfg(tid).rest.on THEN F!Restore(Cfg(tid), Cfg(tid).rest.s, Cfg(tid).rest.due)
+                           ELSE F!Enter(Cfg(tid), Cfg(tid).init, F!ABSENTV, 0, FALSE, 0, FALSE), Cfg(tid).initv)
                /\ now' = 0
 ExtLine(e) == /\ e.ev = "ext" /\ phase = "run" /\ e.t >= now /\ NotOverdue(e.t)
               /\ LET r == F!HandleC(Cfg(tid), st, tm, e.e, e.d, e.t, TRUE, e.c = 1)
